@@ -158,6 +158,8 @@ def run_world(P, fn, args=(), schedule=(), eager=False, reduce_seed=0, key="mpi"
     except simmpi.RankFailure as e:
         # a Violation raised inside a rank is passed through
         for r, ex in sorted(e.excs.items()):
+            if isinstance(ex, Nontermination):
+                raise ex
             if isinstance(ex, Violation):
                 raise ex
             if isinstance(ex, Inconclusive):
@@ -172,6 +174,69 @@ def run_world(P, fn, args=(), schedule=(), eager=False, reduce_seed=0, key="mpi"
         kind = "divergent-crash" if (e.blocked or e.finished) else "crash"
         raise Violation("%s:%s:%s@%s" % (key, kind, type(ex).__name__, where), str(e))
     return res, w
+
+
+# ----------------------------------------------------------------------------
+# hang guard: wall-clock alarm -> deterministic line-event budget
+# ----------------------------------------------------------------------------
+class _Hang(BaseException):
+    """The wall-clock alarm fired (never a verdict by itself)."""
+
+
+class Nontermination(BaseException):
+    """The deterministic line-event budget was exceeded (raised by the tracer, in any thread)."""
+
+
+def traced_call(fn, arg, budget):
+    """Run fn(arg) counting 'line' events in every thread; Nontermination when the budget is exceeded."""
+    import sys
+    import threading
+    n = [0]
+
+    def tracer(frame, event, a):
+        if event == "line":
+            n[0] += 1
+            if n[0] > budget:
+                raise Nontermination()
+        return tracer
+    old = sys.gettrace()
+    threading.settrace(tracer)
+    sys.settrace(tracer)
+    try:
+        return fn(arg)
+    finally:
+        sys.settrace(old)
+        threading.settrace(None)
+
+
+def guarded(predicate, case, seconds, budget, key):
+    """
+    predicate(case) under a wall-clock alarm.  When the alarm fires the case is repeated under a deterministic
+    budget of line events (all threads); only exceeding that budget is reported, as <key>:nontermination.
+    """
+    import signal
+    import threading
+    if threading.current_thread() is not threading.main_thread():
+        return predicate(case)
+
+    def on_alarm(sig, frm):
+        raise _Hang()
+    old = signal.signal(signal.SIGALRM, on_alarm)
+    signal.setitimer(signal.ITIMER_REAL, seconds)
+    try:
+        try:
+            return predicate(case)
+        finally:
+            signal.setitimer(signal.ITIMER_REAL, 0)
+    except _Hang:
+        pass
+    finally:
+        signal.signal(signal.SIGALRM, old)
+    try:
+        return traced_call(predicate, case, budget)
+    except Nontermination:
+        raise Violation(key + ":nontermination",
+                        "no result after %.0f s; repeated under a line-event budget: more than %d line events" % (seconds, budget))
 
 
 # ----------------------------------------------------------------------------
@@ -195,11 +260,17 @@ def run_job(module, job, tier, seed, excluded_keys):
     violations = []
     excluded = set(excluded_keys)
     shrink_cap = 60.0 if tier == "quick" else 240.0
+    hang_s = float(getattr(module, "HANG_SECONDS", 120.0))
+    budget = int(getattr(module, "LINE_BUDGET", 30000000))
+    prop = getattr(module, "PROPERTY", "P")
+
+    def pred(case):
+        return guarded(sub.predicate, case, hang_s, budget, prop)
 
     if sub.enumerate is not None:
         for case in sub.enumerate(tier, job.get("shard", 0), job.get("nshards", 1)):
             try:
-                info = sub.predicate(case)
+                info = pred(case)
             except Inconclusive as e:
                 rec.inconclusive += 1
                 rec.inconclusive_reasons[str(e)[:60]] += 1
@@ -223,8 +294,10 @@ def run_job(module, job, tier, seed, excluded_keys):
             def body(case):
                 if state["t_fail"] is not None and time.time() - state["t_fail"] > shrink_cap:
                     return      # shrink budget used up: stop shrinking (see DESIGN 1)
+                if state.get("hung"):
+                    return      # after a non-termination verdict nothing more is executed in this job
                 try:
-                    info = sub.predicate(case)
+                    info = pred(case)
                 except Inconclusive as e:
                     rec.inconclusive += 1
                     rec.inconclusive_reasons[str(e)[:60]] += 1
@@ -233,6 +306,8 @@ def run_job(module, job, tier, seed, excluded_keys):
                     if v.key in excluded:
                         rec.excluded_known += 1
                         return
+                    if v.key.endswith(":nontermination"):
+                        state["hung"] = True
                     if state["t_fail"] is None:
                         state["t_fail"] = time.time()
                         last["first_case"] = jsonable(case)
@@ -259,6 +334,8 @@ def run_job(module, job, tier, seed, excluded_keys):
                                "first_case": last.get("first_case"), "failure": v.msg[:2000]})
             excluded.add(v.key)
             rounds += 1
+            if state.get("hung"):
+                break
 
     out = rec.dump()
     out.update({"job": job, "violations": violations, "wall_s": time.time() - t0,
@@ -274,7 +351,8 @@ def replay_case(module, subname, case):
     """Run one stored case through its predicate.  Returns None or a Violation."""
     sub = module.SUBS[subname]
     try:
-        sub.predicate(case)
+        guarded(sub.predicate, case, float(getattr(module, "HANG_SECONDS", 120.0)),
+                int(getattr(module, "LINE_BUDGET", 30000000)), getattr(module, "PROPERTY", "P"))
     except Violation as v:
         return v
     except Inconclusive:
